@@ -108,8 +108,9 @@ def engineIO : List SExp → Option SExp
       | .error k => pure (eioErr k)
   | [atom "eio-input-values", list vals] => do
       pure (eioOfArrR (inputValues (← vals.mapM eioValue)))
-  | [atom "eio-output-values", list vals] => do
-      pure (eioOfArrR (outputValues (← vals.mapM eioValue)))
+  -- `Engine.output_values` on the values the input variables and the output variables hold
+  | [atom "eio-output-values", list ins, list outs] => do
+      pure (eioOfArrR (outputValues (← ins.mapM eioValue) (← outs.mapM eioValue)))
   | [atom "eio-values", list ins, list outs] => do
       pure (eioOfArrR (allValues (← ins.mapM eioValue) (← outs.mapM eioValue)))
   -- `engine.input_values = array` on input variables `(lockRange lo hi)`: what every variable receives
